@@ -360,6 +360,15 @@ func (o Operator) Precedence() int {
 	}
 }
 
+// IsComparison returns true for the operators that form comparison chains (a < b == c means a < b and b == c).
+func (o Operator) IsComparison() bool {
+	switch o {
+	case LessThan, GreaterThan, LessThanOrEqual, GreaterThanOrEqual, Equal, NotEqual, In, NotIn, Is, IsNot:
+		return true
+	}
+	return false
+}
+
 // Lazy returns true if the operand of this operator should be lazily evaluated (e.g. and, or)
 func (o Operator) Lazy() bool {
 	return o == And || o == Or
